@@ -207,7 +207,7 @@ EXPORT errno_t _wcsrtombs_s_chk(size_t *restrict retvalp, char *restrict dest,
     }
     l = *retvalp = wcsrtombs(dest, srcp, len, ps);
 
-    if (likely(l > 0 && l < dmax)) {
+    if (likely(l < dmax)) { /* an empty src converts to an empty dest */
 #ifdef SAFECLIB_STR_NULL_SLACK
         if (dest) {
             memset(&dest[l], 0, dmax - l);
